@@ -499,10 +499,136 @@ func runSort(w *core.Worker, c SortCase) {
 	}
 }
 
+
+// ---- bulk monitor: heaps of hundreds to thousands of elements (growth/shrink paths, depth >= 8)
+
+type BulkCase struct {
+	Max   bool   `json:"max"`
+	N     int    `json:"n"`
+	From  bool   `json:"from_slice,omitempty"`
+	Range int    `json:"key_range"`
+	Seed  uint64 `json:"seed"`
+}
+
+func runBulk(w *core.Worker, c BulkCase) {
+	rng := core.NewRand(c.Seed)
+	cmp := cmpOf(c.Max)
+	val := func() E { return E{K: rng.Intn(c.Range), ID: rng.Intn(3)} }
+	cnt := map[E]int{}
+	held := 0
+	var h *heap.Heap[E]
+	pops := 0
+	popCheck := func(what string) bool {
+		v := h.Pop()
+		pops++
+		if held == 0 {
+			if v != (E{}) {
+				w.Violation("heap.nonzero-on-empty:Pop", fmt.Sprintf("bulk %s: Pop on an empty heap returned %+v", what, v))
+				return false
+			}
+			return true
+		}
+		if cnt[v] == 0 {
+			w.Violation("heap.foreign-value:Pop", fmt.Sprintf("bulk %s: Pop %d returned %+v which is not held (%d held)", what, pops, v, held))
+			return false
+		}
+		for x, n := range cnt {
+			if n > 0 && cmp(x, v) {
+				w.Violation("heap.order:Pop", fmt.Sprintf("bulk %s: Pop %d returned %+v although held %+v precedes it (max=%v, %d held)", what, pops, v, x, c.Max, held))
+				return false
+			}
+		}
+		cnt[v]--
+		held--
+		if got := h.Size(); got != held {
+			w.Violation("heap.size", fmt.Sprintf("bulk %s: after Pop %d Size()=%d, model holds %d", what, pops, got, held))
+			return false
+		}
+		return true
+	}
+	p := core.Catch(func() {
+		if c.From {
+			data := make([]E, c.N)
+			for i := range data {
+				data[i] = val()
+				cnt[data[i]]++
+			}
+			held = c.N
+			h = heap.FromSlice(data, cmp)
+		} else {
+			h = heap.NewHeap(cmp)
+			for i := 0; i < c.N; i++ {
+				v := val()
+				h.Push(v)
+				cnt[v]++
+				held++
+			}
+		}
+		if h.Size() != held {
+			w.Violation("heap.size", fmt.Sprintf("bulk: after loading %d elements Size()=%d", held, h.Size()))
+			return
+		}
+		// drain to a quarter, refill to half, convert, drain completely and once more
+		for held > c.N/4 {
+			if !popCheck("first drain") {
+				return
+			}
+		}
+		w.Tick()
+		for held < c.N/2 {
+			v := val()
+			h.Push(v)
+			cnt[v]++
+			held++
+		}
+		if c.Seed%2 == 0 {
+			c.Max = !c.Max
+			cmp = cmpOf(c.Max)
+			h.Convert(cmp)
+		}
+		if !sameMultisetCnt(h.GetValues(), cnt, held) {
+			w.Violation("heap.multiset", fmt.Sprintf("bulk: after refill/convert GetValues() is not the model's multiset (%d held)", held))
+			return
+		}
+		for held > 0 {
+			if !popCheck("final drain") {
+				return
+			}
+		}
+		w.Tick()
+		popCheck("on empty")
+	})
+	if p != nil {
+		w.Violation("heap.panic:bulk", fmt.Sprintf("bulk case panicked after %d pops: %v", pops, p))
+		return
+	}
+	w.Count("bulk_pops", int64(pops))
+	w.NonTrivial(core.HashString(core.JSON(c)))
+	if w.WantSample() {
+		w.Sample(c)
+	}
+}
+
+func sameMultisetCnt(vals []E, cnt map[E]int, held int) bool {
+	if len(vals) != held {
+		return false
+	}
+	c2 := map[E]int{}
+	for _, v := range vals {
+		c2[v]++
+	}
+	for k, n := range cnt {
+		if c2[k] != n {
+			return false
+		}
+	}
+	return true
+}
+
 func TestProp(t *testing.T) {
 	r := core.Start(t, "C03")
 	defer r.Finish()
-	r.Rule("heap-sweep/heap-random: operation sequences on heap.Heap[struct{K,ID}] (comparators look at K only, so equal K with different ID are ties) checked against a multiset model: Pop/Peek must return a held value that no held value precedes under the current comparator, Delete result = membership, Size/IsEmpty/GetValues-as-multiset, Merge leaves inputs intact, Meld empties them, final drain; an order violation after a successful Delete carries the known-finding signature only if a reference simulation of that recorded defect does not answer correctly at that point while having agreed with the implementation so far; non-trivial = the heap held >= 2 elements at some point; heap-sort: Sort/FromSlice on slices, non-trivial = length >= 3; distinct by hash of the case")
+	r.Rule("heap-sweep/heap-random: operation sequences on heap.Heap[struct{K,ID}] (comparators look at K only, so equal K with different ID are ties) checked against a multiset model: Pop/Peek must return a held value that no held value precedes under the current comparator, Delete result = membership, Size/IsEmpty/GetValues-as-multiset, Merge leaves inputs intact, Meld empties them, final drain; an order violation after a successful Delete carries the known-finding signature only if a reference simulation of that recorded defect does not answer correctly at that point while having agreed with the implementation so far; non-trivial = the heap held >= 2 elements at some point; heap-bulk: 255-3000 elements loaded by Push or FromSlice, drained to a quarter, refilled to half, converted, drained completely, every Pop checked for extremality and membership; heap-sort: Sort/FromSlice on slices, non-trivial = length >= 3; distinct by hash of the case")
 
 	vals := []E{{K: 0}, {K: 1}, {K: 1, ID: 1}, {K: 2}}
 	var alpha []Op
@@ -613,4 +739,12 @@ func TestProp(t *testing.T) {
 			emit(SortCase{Max: rng.Bool(), Data: d})
 		}
 	}, runSort)
+
+	nBulk := r.Pick(48, 1200)
+	core.Monitor(r, "heap-bulk", 0, func(emit func(BulkCase)) {
+		rng := r.Rand("c03-bulk")
+		for i := 0; i < nBulk; i++ {
+			emit(BulkCase{Max: i%2 == 0, From: i%3 == 0, N: []int{255, 257, 600, 1025, 3000}[rng.Intn(5)] + rng.Intn(4), Range: []int{4, 50, 100000}[rng.Intn(3)], Seed: rng.Uint64()})
+		}
+	}, runBulk)
 }
